@@ -13,6 +13,7 @@ use frost_core as fc;
 use frost_core::{Ciphersuite, Group};
 use serde_json::json;
 
+use crate::c15::scenario_preprocess_batch;
 use crate::common::*;
 use crate::indep::independent_verify;
 use crate::rng::{FixedRng, TestRng};
@@ -23,6 +24,8 @@ pub fn scenarios() -> Vec<Scenario> {
         scn!(scenario_rfc_recomputation, 4),
         scn!(scenario_identifier_encoding, 1),
         scn!(scenario_single_signer_interop, 1),
+        // pre-processing k pairs = k successive nonce_generate pairs from the stream (of C15; seeded2/C02_1 sits in preprocess)
+        scn!(scenario_preprocess_batch, 1),
     ]
 }
 
